@@ -57,6 +57,16 @@ func (c *tConn) Read(p []byte) (int, error) {
 			defer t.Stop()
 			timeout = t.C
 		}
+		if c15Pace > 0 {
+			// the peer lets some time pass before its next segment
+			select {
+			case <-time.After(c15Pace):
+			case <-c.closed:
+				return 0, net.ErrClosed
+			case <-timeout:
+				return 0, errDeadline
+			}
+		}
 		select {
 		case s, ok := <-c.segs:
 			if !ok {
@@ -99,6 +109,9 @@ func (c *tConn) SetReadDeadline(t time.Time) error  { c.deadline = t; return nil
 func (c *tConn) SetWriteDeadline(t time.Time) error { c.wdeadline = t; return nil }
 
 var c15Conn *tConn
+
+// pause of the scripted peer before each of its segments (0: none)
+var c15Pace time.Duration
 
 // the TCP dial is replaced by the in-memory connection (engine); natively the
 // harness serves the same transcript on a loopback listener
@@ -154,6 +167,7 @@ func c15Serve(segs [][]byte, eofAfter bool, got *[]byte, done chan struct{}) str
 			}
 		}()
 		for _, s := range segs {
+			time.Sleep(c15Pace)
 			conn.Write(s)
 			time.Sleep(30 * time.Millisecond) // keep the segments apart
 		}
@@ -243,7 +257,17 @@ func H_c15_server() {
 func H_c15_deadline() {
 	var segs [][]byte
 	eof := false
-	switch symInt(0, 4) {
+	c15Pace = 0
+	switch symInt(0, 6) {
+	case 6: // a talkative server that never prompts: a line every 1.5 s (an inactivity timeout would never fire)
+		c15Pace = 1500 * time.Millisecond
+		for i := 0; i < 3; i++ {
+			segs = append(segs, []byte("Welcome to the node, line "+string(rune('a'+i))+"\r"))
+		}
+	case 5: // a server that never prompts but keeps talking (banner / MOTD lines), then falls silent
+		for i := 0; i < 12; i++ {
+			segs = append(segs, []byte("Welcome to the node, line "+string(rune('a'+i))+"\r"))
+		}
 	case 0: // silent server
 	case 1: // partial prompt, then silence
 		segs = [][]byte{[]byte("Callsi")}
